@@ -19,12 +19,14 @@ func checkC15(r *Run) {
 	r.Rule("R4", "every token leaves the lexer with LineNumber assigned, on every path of both token functions", 30)
 	r.Rule("R5", "the line is a function of the consumed newlines: only readChar moves the cursor and bumps the line (under ch == '\\n' of the byte just consumed); the scanner reads input only relative to the cursor", 4)
 	r.Rule("R6", "every statement node is stamped with the token that is current BEFORE its expression is parsed (the first token of the statement)", 4)
+	r.Rule("R7", "the recorded syntax errors reach the caller in recording order: nothing on the way sorts the message list (a string sort of 'line N:' prefixes is not shift invariant)", 1)
 	parserMessagesRule(r, "R1")
 	evaluatorExitRule(r, "R2")
 	curStmtRule(r, "R3")
 	tokenLineRuleSSA(r, "R4")
 	cursorOwnershipRule(r, "R5")
 	statementTokenRule(r, "R6")
+	messageOrderRule(r, "R7")
 }
 
 // linePrefixed: e is fmt.Sprintf(format, X.LineNumber, ...) with a constant
